@@ -54,7 +54,7 @@ def extra_configs(tier):
 
 def all_configs(tier):
     base = [c for c in s1.configs(tier) if c["test"] in ("alpha_mart", "betting_mart", "wald_sprt")]
-    return base + extra_configs(tier) + s1.nd_configs(tier) + [c for c in s1.long_configs(tier) if c["test"] in ("alpha_mart", "betting_mart", "wald_sprt")]
+    return base + extra_configs(tier) + s1.nd_configs(tier) + [c for c in s1.long_configs(tier) if c["test"] in ("alpha_mart", "betting_mart", "wald_sprt")] + s1.bign_configs(tier)
 
 
 def bounds(tier):
